@@ -145,6 +145,23 @@ pub fn c02_eq_cmp_scalar_kinds() {
     eq_cmp_kinds(5, 10)
 }
 
+/// contains() on bytes: every needle of length 0-1 against every haystack of length 0-2 returns a
+/// bool (the empty needle is contained in everything), never a panic
+pub fn c02_bytes_contains() {
+    let (h0, h1, n0): (u8, u8, u8) = (any(), any(), any());
+    let (hl, nl): (u8, u8) = (any(), any());
+    sym::assume(hl <= 2 && nl <= 1);
+    let hay: Vec<u8> = if hl == 0 { vec![] } else if hl == 1 { vec![h0] } else { vec![h0, h1] };
+    let needle: Vec<u8> = if nl == 0 { vec![] } else { vec![n0] };
+    cover!(nl == 0, "empty needle reachable");
+    cover!(nl == 1 && hl == 2 && h1 == n0, "needle at the end of the haystack reachable");
+    region!("C02:bytes_contains_empty_needle", nl == 0);
+    let r = functions::contains(This(Value::Bytes(Arc::new(hay))), Value::Bytes(Arc::new(needle)));
+    let want = nl == 0 || (hl >= 1 && h0 == n0) || (hl == 2 && h1 == n0);
+    check!(matches!(&r, Ok(Value::Bool(b)) if *b == want), "bytes.contains(needle) is true iff the needle occurs (the empty needle always does)");
+    forget(r);
+}
+
 /// string() of any chrono duration (beyond the i64 nanosecond range included) returns, never panics
 pub fn c02_string_of_any_duration() {
     let secs: i64 = any();
@@ -206,6 +223,7 @@ crate::harnesses! {
     #[kani::unwind(12)] c02_eq_cmp_map_function_kinds: "quick", "<Value as PartialEq>::eq, <Value as PartialOrd>::partial_cmp", "map/function (concrete representatives) against null/bool/int/double/uint: 10 ordered pairs";
     #[kani::unwind(12)] c02_eq_cmp_scalar_kinds: "quick", "<Value as PartialEq>::eq, <Value as PartialOrd>::partial_cmp", "null/bool/int/double/uint against all 10 kinds: 50 ordered pairs, symbolic payloads";
     #[kani::unwind(34)] #[kani::stub(alloc::fmt::format, crate::stubs::format)] #[kani::stub(alloc::string::String::from_utf8_lossy, crate::stubs::from_utf8_lossy)] c02_string_of_any_duration: "quick", "functions::string on Value::Duration -> duration::format_duration", "every chrono duration (secs: i64, nanos < 10^9, Duration::new accepts)";
+    #[kani::unwind(5)] c02_bytes_contains: "quick", "functions::contains on (Bytes, Bytes)", "haystack of 0-2 symbolic bytes, needle of 0-1 symbolic bytes";
     #[kani::unwind(2)] c02_accessors_at_chrono_min: "quick", "the ten timestamp accessors", "instants within 2^17 s after chrono's MIN_UTC, every offset within +-24 h";
     #[kani::unwind(2)] c02_accessors_at_chrono_max: "quick", "the ten timestamp accessors", "instants within 2^17 s before chrono's MAX_UTC, every offset within +-24 h";
 }
